@@ -265,7 +265,8 @@ func dropKnownPairs(c *sim.Ctx, cfg *concCfg, prop string) {
 						bad = true
 					}
 
-					if _, ok := c.Known[prop+"|"+cfg.FS+nameRaceSig]; ok && nameRace(o, k) {
+					if _, ok := c.Known[prop+"|"+cfg.FS+nameRaceSig]; ok && nameRace(o, k) && !(prop == "C06" && (isTypedQuery(o.K) || isTypedQuery(k.K))) {
+						// (queries stay: what they answer is also judged on its own, see impossibleOutcome)
 						bad = true
 					}
 				}
@@ -352,6 +353,13 @@ func (p C06) Run(c *sim.Ctx, t *sim.Tape) sim.RunResult {
 			sig = cfg.FS + ancRaceSig
 		}
 
+		// The listed races explain histories whose calls each return something a sequential order could return,
+		// in a combination none yields. A call that returns what NO order yields is a different thing and is
+		// never covered by them.
+		if k := impossibleOutcome(m, cfg, r.Hist); k != "" {
+			sig = cfg.FS + " query answers with an object type (or link target) that the path has in no sequential order: " + k
+		}
+
 		res.Violation = &sim.Violation{
 			Prop: "C06", Class: "nonlinearizable", Sig: sig,
 			Msg: "no sequential order of the calls yields these results and this final tree",
@@ -426,6 +434,106 @@ func checkLinKeys(hist []sim.HistOp, m *seqModel) sim.LinResult {
 
 		return !ea.bad && !eb.bad && ea.digest == eb.digest
 	}, 20*time.Second)
+}
+
+// impossibleOutcome returns the kind of the first call whose observed result is not its result in any
+// sequential order compatible with program order ("" if there is none or the program is too large to enumerate).
+func impossibleOutcome(m *seqModel, cfg *concCfg, hist []sim.HistOp) string {
+	total := 0
+	for _, p := range cfg.Progs {
+		total += len(p)
+	}
+
+	if total > 5 {
+		return ""
+	}
+
+	possible := map[string]map[string]bool{}
+	pos := make([]int, len(cfg.Progs))
+
+	var rec func(key string, n int)
+
+	rec = func(key string, n int) {
+		if n == total {
+			return
+		}
+
+		for ci := range cfg.Progs {
+			if pos[ci] >= len(cfg.Progs[ci]) {
+				continue
+			}
+
+			id := fmt.Sprintf("%d.%d", ci, pos[ci])
+			k := id
+
+			if key != "" {
+				k = key + ";" + id
+			}
+
+			e := m.eval(k)
+			if possible[id] == nil {
+				possible[id] = map[string]bool{}
+			}
+
+			if !e.bad {
+				possible[id][typeClass(e.out)] = true
+			}
+
+			pos[ci]++
+			rec(k, n+1)
+			pos[ci]--
+		}
+	}
+
+	rec("", 0)
+
+	for _, h := range hist {
+		ci, ok := h.In.(concIn)
+		if !ok {
+			continue
+		}
+
+		o := cfg.Progs[ci.Client][ci.Index]
+		if !isTypedQuery(o.K) {
+			continue
+		}
+
+		id := fmt.Sprintf("%d.%d", ci.Client, ci.Index)
+		cl := typeClass(h.Out)
+
+		if cfg.Symlinks && !strings.HasPrefix(cl, "ok") {
+			// following a symbolic link is two lookups (the link, then its target), which no file system makes
+			// atomic: an error in between is the walk's, not a wrong object.
+			continue
+		}
+
+		if set := possible[id]; set != nil && !set[cl] {
+			return o.K + "=" + cl
+		}
+	}
+
+	return ""
+}
+
+// isTypedQuery: queries whose answer names the type (Stat, Lstat) or the target (Readlink) of an object.
+func isTypedQuery(k string) bool { return k == "Stat" || k == "Lstat" || k == "Readlink" }
+
+// typeClass reduces the result of Stat or Lstat to its outcome and the type of the object ("ok:d", "ENOENT").
+func typeClass(out string) string {
+	f := strings.Fields(out)
+	if len(f) == 2 && f[0] == "ok" {
+		return out // Readlink: the target
+	}
+
+	if len(f) >= 3 && f[0] == "ok" {
+		return "ok:" + f[2]
+	}
+
+	if len(f) > 0 {
+		return f[0]
+	}
+
+	return out
 }
 
 type orderInfo struct {
